@@ -281,6 +281,15 @@ func (f *Format) Parse(buf []byte) (tm time.Time, err error) {
 		tm, err = time.ParseInLocation(f.dLayout, str, time.UTC)
 	}
 
+	if err != nil && strings.Contains(f.dLayout, "PM") {
+		// the regular expression of P admits am/pm, time.Parse reads the marker in upper case only (month and day
+		// names in any case): without this a later 24-hour format claims the text and reads the afternoon as morning
+		if f.hasLocation {
+			tm, err = time.Parse(f.dLayout, strings.ToUpper(str))
+		} else {
+			tm, err = time.ParseInLocation(f.dLayout, strings.ToUpper(str), time.UTC)
+		}
+	}
 	if err != nil {
 		return tm, err
 	}
